@@ -68,6 +68,10 @@ var c16Layout = []string{
 	"public/release..notes.txt", "public/..hidden", "public/2024...json", "public/v1..2/", "public/v1..2/readme.txt", "public/dots../", "public/dots../dd.txt",
 	// a path parameter value in front of a static mount may itself name something under the root
 	"public/acme", "public/1/", "public/1/index.html",
+	// another directory with the same shape: where a root would land if it were resolved against a later
+	// working directory, or below a later Echo.Filesystem
+	"elsewhere/", "elsewhere/index.html", "elsewhere/a.txt", "elsewhere/public/", "elsewhere/public/a.txt", "elsewhere/public/index.html",
+	"elsewhere/public/dir/", "elsewhere/public/dir/b.txt", "elsewhere/static/", "elsewhere/static/d.txt", "elsewhere/dir/", "elsewhere/dir/b.txt",
 }
 
 func c16VerifDir() string {
@@ -200,6 +204,10 @@ type c16Case struct {
 	SubRoot string `json:"sub_root,omitempty"` // dir variants 13..15: the root given to MustSubFS / Static below os.DirFS(W)
 	Disp    lat1   `json:"disp,omitempty"`     // file variants 4, 5: display name of Attachment / Inline
 	Warm    lat1   `json:"warm,omitempty"`     // a request path served first through the same Echo instance
+	// round 7: WHEN a configuration value is read
+	Chdir    string `json:"chdir,omitempty"`     // child-process set-ups only: the process changes its working directory to W/<Chdir> ...
+	ChdirAt  int    `json:"chdir_at,omitempty"`  // ... 1 after echo.New() (before the routes are registered), 2 after the registration (before the requests)
+	Reassign int    `json:"reassign,omitempty"`  // Echo.Filesystem is reassigned AFTER the routes were registered, before the first request: 1 = os.DirFS(W/elsewhere), 2 = MustSubFS(e.Filesystem, "elsewhere")
 	PVal    string `json:"pval,omitempty"`     // dir variants 26..29: value of the path parameter in front of the static mount
 }
 
@@ -602,6 +610,21 @@ func c16RunMw(c *c16Case) Result {
 		e.Use(rt.rec, static, rt.tail)
 		e.GET("/st*", c16OK)
 	}
+	// http.Dir(relative Root) is resolved by the OS on every Open: a middleware on the default file system
+	// follows the working directory of the process (unlike the Static routes)
+	chdir, restore := c16ChdirSetup(c)
+	defer restore()
+	chdir(1)
+	chdir(2)
+	rootRels := []string{c16RootName}
+	if c16InChild() && c.Chdir != "" && c16MwDefaultFS(c.FS) && c.FS != 0 {
+		cwdSegs = strings.Split(c.Chdir, "/")
+		rr := path.Join(c.Chdir, cfg.Root)
+		if rr == "." {
+			rr = ""
+		}
+		rootRels = []string{rr, c16RootName}
+	}
 	warmOracle := ""
 	if c.Warm != "" {
 		// an earlier request through the same Echo instance and the same middleware closure
@@ -647,6 +670,16 @@ func c16RunMw(c *c16Case) Result {
 		mp = "\x00"
 	}
 	oracle := c16Oracle(c, mp, c16RootName, code, body, listed, strings.HasPrefix(out, "list"))
+	if len(rootRels) > 1 {
+		// after a chdir the relative Root of http.Dir names another directory: content from the directory it named when
+		// the middleware was constructed or from the one it names now is within the configured root; nothing else is
+		oracle = c16Oracle(c, "\x00", rootRels[0], code, body, listed, false)
+		if oracle != "" {
+			oracle = c16Oracle(c, "\x00", rootRels[1], code, body, listed, strings.HasPrefix(out, "list"))
+		}
+		warmOracle = ""
+		tags = append(tags, "chdir-mw")
+	}
 	if oracle == "" && warmOracle != "" {
 		oracle = "first request " + string(c.Warm) + ": " + warmOracle
 	}
@@ -760,10 +793,53 @@ func c16FSFault(c *c16Case) int {
 	return 0
 }
 
+const c16Elsewhere = "elsewhere"
+
+// c16Chdir changes the working directory of a CHILD process at moment `at`; the harness process itself
+// never changes its working directory.  The returned function restores it.
+func c16InChild() bool { return os.Getenv(c16ChildEnv) != "" }
+
+func c16ChdirSetup(c *c16Case) (step func(at int), restore func()) {
+	if !c16InChild() || c.Chdir == "" {
+		return func(int) {}, func() {}
+	}
+	orig, err := os.Getwd()
+	if err != nil {
+		return func(int) {}, func() {}
+	}
+	return func(at int) {
+			if c.ChdirAt == at {
+				os.Chdir(filepath.Join(c16Work, c.Chdir))
+			}
+		}, func() {
+			os.Chdir(orig)
+		}
+}
+
+// c16Reassign replaces Echo.Filesystem after the routes were registered.
+func c16Reassign(e *echo.Echo, c *c16Case, names *[]string, record bool) {
+	switch c.Reassign {
+	case 1:
+		var f fs.FS = os.DirFS(filepath.Join(c16Work, c16Elsewhere))
+		if record {
+			f = c16RecFS{f, names}
+		}
+		e.Filesystem = f
+	case 2:
+		func() {
+			defer func() { recover() }()
+			e.Filesystem = echo.MustSubFS(e.Filesystem, c16Elsewhere)
+		}()
+	}
+}
+
 func c16RunDir(c *c16Case) Result {
 	var names []string
 	var rt c16Routing
+	chdir, restore := c16ChdirSetup(c)
+	defer restore()
 	e := echo.New()
+	chdir(1)
 	e.Use(rt.rec)
 	rec := false
 	mount := c.Prefix
@@ -871,6 +947,36 @@ func c16RunDir(c *c16Case) Result {
 		return Result{Ops: ops, Obs: "config-panic", Tags: append(tags, "out-config-panic"), Nontrivial: true}
 	}
 	e.GET("/api/ok", c16OK)
+	// the routes are registered: from here on neither a change of the working directory nor a new
+	// Echo.Filesystem may move the root of a Static / StaticFS route
+	chdir(2)
+	c16Reassign(e, c, &names, false)
+	if c.Reassign != 0 {
+		tags = append(tags, fmt.Sprintf("filesystem-reassigned-%d", c.Reassign))
+	}
+	if c16InChild() && c.Chdir != "" {
+		tags = append(tags, fmt.Sprintf("chdir-at-%d", c.ChdirAt))
+		// default file system: the working directory counts as it was at echo.New(); the model gets all four moments
+		cwd0 := []string{}
+		if c16CaseCwd(c) == "root" {
+			cwd0 = []string{c16RootName}
+		}
+		now := strings.Split(c.Chdir, "/")
+		atReg := cwd0
+		if c.ChdirAt == 1 {
+			atReg = now
+		}
+		var roots []string
+		switch {
+		case c.Variant == 1:
+			roots = []string{c16RootName}
+		case c.Variant >= 20 && c.Variant <= 25:
+			roots = c16Derived[c.Variant].roots
+		default:
+			roots = []string{c16DotRoots[c.Variant]}
+		}
+		subOpt = wJoin("3", wStrs(cwd0), wStrs(atReg), wStrs(now), wStrs(now), wStrs(roots))
+	}
 	warmOracle := ""
 	if c.Variant >= 13 && c.Variant <= 15 {
 		if _, valid := c16SubRootRel(c.SubRoot); !valid {
@@ -1007,9 +1113,29 @@ func c16RunFile(c *c16Case) Result {
 		name = "/W/" + c16RootName + "/" + c.File
 		e.GET("/f", func(ec echo.Context) error { return ec.File(c16Root + "/" + c.File) })
 	}
+	// a File route reads Echo.Filesystem (and, on the default file system, the working directory) when the
+	// request is served: a reassignment / chdir after the registration is followed
+	chdir, restore := c16ChdirSetup(c)
+	defer restore()
+	chdir(1)
+	chdir(2)
+	fileBase := c16RootName // the directory the relative name of variants 2, 6, 8 is resolved in, relative to W
+	moved := false
+	if c.Variant == 6 && c16InChild() && c.Chdir != "" {
+		osOpt = wJoin("1", wStrs(strings.Split(c.Chdir, "/")))
+		fileBase, moved = c.Chdir+"/"+c16RootName, true
+	}
+	if (c.Variant == 2 || c.Variant == 8) && c.Reassign == 1 {
+		c16Reassign(e, c, &names, true)
+		rootSegs = []string{c16Elsewhere}
+		fileBase, moved = c16Elsewhere+"/"+c16RootName, true
+	}
 	code, body, hdr, panicked, _ := c16ServeH(e, c)
 	out, listed := c16Outcome(2, code, body, panicked)
 	tags := []string{fmt.Sprintf("file-variant-%d", c.Variant), "out-" + strings.SplitN(out, " ", 2)[0]}
+	if moved {
+		tags = append(tags, "file-route-follows-environment")
+	}
 	if fault != 0 {
 		tags = append(tags, fmt.Sprintf("fault-%d", fault))
 	}
@@ -1017,7 +1143,23 @@ func c16RunFile(c *c16Case) Result {
 		mp = "\x00"
 	}
 	var oracle string
-	if c.Variant == 6 || c.Variant == 9 {
+	if moved {
+		// the response carries the named file as found from the environment of the request, or as found from the
+		// environment of the registration, or no file content at all
+		ok := !strings.Contains(body, "MARK-")
+		for _, base := range []string{fileBase, c16RootName} {
+			want := c16ByRel[path.Clean(base+"/"+c.File)]
+			if want != nil && want.dir {
+				want = c16ByRel[path.Clean(want.rel+"/index.html")]
+			}
+			if want != nil && !want.dir && body == want.body {
+				ok = true
+			}
+		}
+		if !ok {
+			oracle = fmt.Sprintf("route for the file %q answered with other file content: %q", c16RootName+"/"+c.File, c16Short(body))
+		}
+	} else if c.Variant == 6 || c.Variant == 9 {
 		// the developer named a file anywhere below the working directory: the response carries
 		// that file's bytes or no file content at all
 		want := c16ByRel[path.Clean(c16RootName+"/"+c.File)]
@@ -1294,7 +1436,7 @@ var c16Disp = []string{"report.pdf", "a\"b.txt", "back\\slash.txt", "x\"; y=\"z"
 
 var c16Files = []string{"a.txt", "dir", "dir/b.txt", "nope", "../secret.txt", "../secret", "dir/", "dir/../../secret", "/etc/hostname",
 	"empty", ".", "", "dir/sub/c.txt", "./a.txt", "static", "a+b.txt", "a b.txt", "c++/n.txt", "q&a=1;x.txt", "wh?at#.txt", "100%.txt", "pct%2e.txt",
-	"\xc3\xa9.txt", "a.txt/", "dir/index.html", "static/index.html", "../a+b.txt", "dir/../a.txt", "b\\s.txt", "index.html", "../public/a.txt", "..", "dir/sub/../b.txt"}
+	"\xc3\xa9.txt", "a.txt/", "dir/index.html", "static/index.html", "../a+b.txt", "dir/../a.txt", "b\\s.txt", "index.html", "../public/a.txt", "..", "dir/sub/../b.txt", "nope/../a.txt", "empty/../a.txt", "a.txt/../a.txt"}
 
 func c16DirMount(c *c16Case) string {
 	mount := strings.TrimSuffix(c.Prefix, "/")
@@ -1329,6 +1471,12 @@ func c16GenCase(r *rand.Rand, big bool) *c16Case {
 		if r.Intn(6) == 0 {
 			c.Warm = lat1(c16DirMount(c) + "/" + c16Pick(r, c16RealPaths))
 		}
+		if c16CaseCwd(c) != "" && r.Intn(4) == 0 {
+			c.Chdir, c.ChdirAt = c16Pick(r, []string{c16Elsewhere, c16Elsewhere, c16Elsewhere + "/public", "static"}), 1+r.Intn(2)
+		}
+		if r.Intn(5) == 0 {
+			c.Reassign = 1 + r.Intn(2)
+		}
 	case 3:
 		c.Kind = 2
 		c.Variant = r.Intn(c16NumFileVariants)
@@ -1351,6 +1499,12 @@ func c16GenCase(r *rand.Rand, big bool) *c16Case {
 		if r.Intn(8) == 0 {
 			c.Path = lat1(c16Pick(r, []string{"/f", "/g/f", "/f/", "/f/../secret.txt", "/f/a.txt"}))
 		}
+		if c.Variant == 6 && r.Intn(3) == 0 {
+			c.Chdir, c.ChdirAt = c16Elsewhere, 1+r.Intn(2)
+		}
+		if (c.Variant == 2 || c.Variant == 8) && r.Intn(3) == 0 {
+			c.Reassign = 1
+		}
 	default:
 		c.Kind = 0
 		c.Mount = r.Intn(c16NumMounts)
@@ -1366,6 +1520,9 @@ func c16GenCase(r *rand.Rand, big bool) *c16Case {
 		}
 		if r.Intn(5) == 0 {
 			c.Skip = 1 + r.Intn(3)
+		}
+		if c16MwDefaultFS(c.FS) && c.FS != 0 && r.Intn(5) == 0 {
+			c.Chdir, c.ChdirAt = c16Pick(r, []string{c16Elsewhere, c16Elsewhere + "/public"}), 1+r.Intn(2)
 		}
 		if r.Intn(6) == 0 {
 			c.Warm = lat1(c16MwMountPrefix[c.Mount] + "/" + c16Pick(r, c16RealPaths))
@@ -1437,6 +1594,27 @@ func c16Gen(r *rand.Rand, tier string) []any {
 			out = append(out, fc)
 		}
 		out = append(out, &c16Case{Kind: 2, Variant: 7, Path: lat1("/dl/" + rel)})
+		// ... with the working directory changed after echo.New() / after the registration (child set-ups) and with
+		// Echo.Filesystem reassigned after the registration
+		for _, v := range []int{1, 8, 12, 21, 22} {
+			for at := 1; at <= 2; at++ {
+				dc := &c16Case{Kind: 1, Variant: v, Prefix: "/assets", Chdir: c16Elsewhere, ChdirAt: at}
+				full := rel
+				if v >= 20 {
+					if !strings.HasPrefix(c16RootName+"/"+rel, c16Derived[v].rel+"/") {
+						continue
+					}
+					full = strings.TrimPrefix(c16RootName+"/"+rel, c16Derived[v].rel+"/")
+				}
+				dc.Path = lat1(c16DirMount(dc) + "/" + full)
+				out = append(out, dc)
+			}
+		}
+		for _, v := range []int{0, 4, 6, 14, 15, 2, 5} {
+			dc := &c16Case{Kind: 1, Variant: v, Prefix: "/assets", SubRoot: c16RootName, Reassign: 1 + len(rel)%2}
+			dc.Path = lat1(c16DirMount(dc) + "/" + rel)
+			out = append(out, dc)
+		}
 		// ... and through the convenience constructor and a Skipper that lets the request pass
 		for _, f := range []int{0, 1, 9, 13} {
 			out = append(out, &c16Case{Kind: 0, Mount: 0, FS: f, Ctor: true, Path: lat1("/" + rel)})
@@ -1529,6 +1707,12 @@ func c16Shrink(ci any) []any {
 	if c.Warm != "" {
 		add(func(d *c16Case) { d.Warm = "" })
 	}
+	if c.Chdir != "" {
+		add(func(d *c16Case) { d.Chdir, d.ChdirAt = "", 0 })
+	}
+	if c.Reassign != 0 {
+		add(func(d *c16Case) { d.Reassign = 0 })
+	}
 	if c.PVal != "" && c.PVal != "x" && c.Kind == 1 && c.Variant >= 26 {
 		old := c16DirMount(c)
 		add(func(d *c16Case) {
@@ -1587,7 +1771,7 @@ func c16Shrink(ci any) []any {
 func init() {
 	register(&Prop{
 		ID:             "C16",
-		Rule:           "marker tree created at run time under <verif>/.work (root `public` with files, nested directories, a `...` directory, names with space, %, non-ASCII; secrets and look-alike siblings `public.bak`, `publicsecret`, `secret`, `index.html`, `static/` next to the root). Requests: raw targets over the adversarial segment alphabet (.., ., %2e, %2e%2e, %2f, %5c, \\, empty, double encodings, overlong/invalid UTF-8, malformed escapes; dot-dot look-alikes around bytes a sanitiser might drop — NUL, LF, CR, TAB, DEL, VT, space, U+200B, U+FEFF, U+00AD: `.%00.`, `%00..`, `..%00`, `.%2500.` — and names cut short at such a byte) mixed with real names, real paths spliced with one adversarial segment, encoded paths to the outside secrets, IgnoreBase shapes (last element = route base or `.`); URL.Path/RawPath derived as net/http would, or set verbatim. Configurations: Static middleware (StaticWithConfig and the convenience constructor Static(root)) x mount {e.Use, e.Pre, group /static, e.Use + catch-all route, group /files, e.Use + /st*, two instances in one chain} x Skipper {nil, false, true, by path prefix} x injected failures of the file objects {Stat of files, Stat of directories, Readdir} x file system {default http.Dir with absolute / relative / unclean / dot-dot Root (working directory W or the web root), recording http.Dir(root), http.Dir(parent)+Root, http.FS(os.DirFS), http.FS(os.DirFS(parent))+Root, http.FS(MapFS)+Root, http.FS(fs.Sub(MapFS))} x Index x HTML5 x Browse x IgnoreBase; Echo.Static / StaticFS / Group.Static / StaticFS (also mounted below path parameters — /v/:ver/assets, group /:tenant, /:a/:b/s — with parameter values that name files and directories under the root; also on a DEFAULT Echo.Filesystem that was first narrowed by MustSubFS of itself: absolute, relative, `..`, `.`, three levels) x {absolute, relative root, os.DirFS, fs.Sub(MapFS), custom Echo.Filesystem, MustSubFS} x prefixes; FileFS / File routes of Echo and Group, Context.FileFS / Attachment / Inline (Content-Disposition compared), File on the DEFAULT Echo.Filesystem (os.Open: relative to the working directory, absolute), a download handler taking the name from the request; MustSubFS roots (valid, unclean, climbing, rooted: must panic); fs.FS whose files fail Stat or cannot seek; a third request path may be served first through the same Echo (state carried between requests). The tree also holds names with URL-special bytes (+ & = ; ? # * : ~ $ ! ' ( ) , @ backslash, double space) next to look-alike siblings. Every regular file under the root is also requested by its clean path through every mount. non-trivial = request with dot-dot / percent / backslash / double slash, or a response that is a file or a listing; distinct = distinct model op lines",
+		Rule:           "marker tree created at run time under <verif>/.work (root `public` with files, nested directories, a `...` directory, names with space, %, non-ASCII; secrets and look-alike siblings `public.bak`, `publicsecret`, `secret`, `index.html`, `static/` next to the root). Requests: raw targets over the adversarial segment alphabet (.., ., %2e, %2e%2e, %2f, %5c, \\, empty, double encodings, overlong/invalid UTF-8, malformed escapes; dot-dot look-alikes around bytes a sanitiser might drop — NUL, LF, CR, TAB, DEL, VT, space, U+200B, U+FEFF, U+00AD: `.%00.`, `%00..`, `..%00`, `.%2500.` — and names cut short at such a byte) mixed with real names, real paths spliced with one adversarial segment, encoded paths to the outside secrets, IgnoreBase shapes (last element = route base or `.`); URL.Path/RawPath derived as net/http would, or set verbatim. Configurations: Static middleware (StaticWithConfig and the convenience constructor Static(root)) x mount {e.Use, e.Pre, group /static, e.Use + catch-all route, group /files, e.Use + /st*, two instances in one chain} x Skipper {nil, false, true, by path prefix} x injected failures of the file objects {Stat of files, Stat of directories, Readdir} x file system {default http.Dir with absolute / relative / unclean / dot-dot Root (working directory W or the web root), recording http.Dir(root), http.Dir(parent)+Root, http.FS(os.DirFS), http.FS(os.DirFS(parent))+Root, http.FS(MapFS)+Root, http.FS(fs.Sub(MapFS))} x Index x HTML5 x Browse x IgnoreBase; Echo.Static / StaticFS / Group.Static / StaticFS (also mounted below path parameters — /v/:ver/assets, group /:tenant, /:a/:b/s — with parameter values that name files and directories under the root; also on a DEFAULT Echo.Filesystem that was first narrowed by MustSubFS of itself: absolute, relative, `..`, `.`, three levels) x {absolute, relative root, os.DirFS, fs.Sub(MapFS), custom Echo.Filesystem, MustSubFS} x prefixes; TIMING: in the child-process set-ups the working directory is changed after echo.New() or after the registration (Static routes on the default file system must keep the root of echo.New() time; the middleware's http.Dir(relative) and File on the default file system follow the process), and Echo.Filesystem is reassigned after the routes were registered (Static / StaticFS routes of Echo and Group keep their root; File routes follow). FileFS / File routes of Echo and Group, Context.FileFS / Attachment / Inline (Content-Disposition compared), File on the DEFAULT Echo.Filesystem (os.Open: relative to the working directory, absolute), a download handler taking the name from the request; MustSubFS roots (valid, unclean, climbing, rooted: must panic); fs.FS whose files fail Stat or cannot seek; a third request path may be served first through the same Echo (state carried between requests). The tree also holds names with URL-special bytes (+ & = ; ? # * : ~ $ ! ' ( ) , @ backslash, double space) next to look-alike siblings. Every regular file under the root is also requested by its clean path through every mount. non-trivial = request with dot-dot / percent / backslash / double slash, or a response that is a file or a listing; distinct = distinct model op lines",
 		New:            func() any { return &c16Case{} },
 		Gen:            func(r *rand.Rand, tier string) []any { c16Setup(); return c16Gen(r, tier) },
 		Run:            c16Run,
